@@ -46,6 +46,7 @@ func checkC14(c *Ctx, r *Report) {
 	}
 	c14Dup(c, r)
 	c14ExtOrder(c, r)
+	c14OneLoad(c, r)
 }
 
 type txnShape struct {
@@ -419,4 +420,36 @@ func (c *Ctx) resolvesRefs(fn *ssa.Function) bool {
 		return false
 	}
 	return strings.Contains(fn.Name(), "replaceTypeRefs") || strings.Contains(fn.Name(), "ReplaceRefs")
+}
+
+// c14OneLoad: a loader that assembles a document from several sources (ParseFS: files matched by several
+// patterns) is as atomic as the load transaction only if it enters the transaction once, after everything
+// has been read: the call that reaches ParseReader is not inside a loop, there is exactly one, and a failure
+// while reading returns before it. Loading pattern by pattern leaves the earlier patterns' definitions in the
+// root when a later one fails.
+func c14OneLoad(c *Ctx, r *Report) {
+	r.rule("C14.ONELOAD", "(*Root).ParseFS enters the load transaction exactly once and outside any loop")
+	fn := c.fn("(*Root).ParseFS")
+	pr := c.fn("(*Root).ParseReader")
+	if fn == nil || pr == nil {
+		r.undecided("C14.ONELOAD", "anchors ParseFS / ParseReader", token.NoPos, "not found")
+		return
+	}
+	r.fnSeen(fnName(fn))
+	reachPR := func(f *ssa.Function) bool { return f == pr || c.reachable(f)[pr] }
+	n, inLoopN := 0, 0
+	var pos token.Pos
+	for _, ci := range callsIn(fn) {
+		cal := ci.Common().StaticCallee()
+		if cal == nil || !c.inPkg(cal) || !reachPR(cal) {
+			continue
+		}
+		n++
+		pos = ci.Pos()
+		if inLoop(ci.Block()) {
+			inLoopN++
+		}
+	}
+	r.check("C14.ONELOAD", fnName(fn)+": one load transaction for all patterns", firstPos(pos, fn.Pos()), n == 1 && inLoopN == 0,
+		fmt.Sprintf("%d call(s) into the load transaction, %d inside a loop: each call is atomic on its own, but a failure in a later one returns an error with the definitions of the earlier ones left in the root", n, inLoopN))
 }
